@@ -1,6 +1,6 @@
 (* Correspondence cases for C05: the harness writes (input, observed implementation output);
    [mismatches05] returns the indices where the model disagrees. *)
-From KV Require Export Fs.Loader.
+From KV Require Export Fs.Loader Fs.LoadTree.
 
 Definition oclass_eqb (a b : oclass) : bool :=
   match a, b with
@@ -51,6 +51,10 @@ Inductive case05 :=
    references of its kustomization; observed: the roots whose kustomization file was read, in order, and
    the outcome class of the build *)
 | K_visit (fs : vfs) (target : string) (bases : list (string * list string)) (cls : oclass) (trace : list string)
+(* a build over kustomizations listing resource files and bases: [kusts] maps the text of every
+   kustomization file to its resources: entries; observed: outcome class and, on success, every path handed
+   to ReadFile, in order *)
+| K_build (fs : vfs) (target : string) (kusts : list (string * list string)) (cls : oclass) (reads : list string)
 | K_chain (fs : vfs) (rootonly : bool) (target : string) (news : list string) (op : chainop)
           (stage : N) (cls : oclass) (root : string) (bytes : string).
 
@@ -120,6 +124,18 @@ Definition agree05 (c : case05) : bool :=
           let (tr, c) := visit_trace never no_git 64 ops bf l0 in
           oclass_eqb c cls && strs_eqb05 tr trace
       | r => oclass_eqb cls (class_of r) && match trace with [] => true | _ => false end
+      end
+  | K_build fs target kusts cls reads =>
+      let ops := ops_of fs in
+      let pk := fun txt => match find (fun kv => String.eqb (fst kv) txt) kusts with
+                           | Some kv => Ok (tt, snd kv) | None => Err end in
+      match m_new_loader ops RootOnly target with
+      | Ok l0 =>
+          match load_tree_gen unit unit unit (fun _ => tt) (fun _ _ _ => tt) never no_git pk (fun _ => Ok tt) 64 ops l0 with
+          | Ok (_, evs) => oclass_eqb cls COk && strs_eqb05 (map ev_path evs) reads
+          | r => oclass_eqb cls (class_of r)
+          end
+      | r => oclass_eqb cls (class_of r)
       end
   | K_chain fs ro target news op stage cls root bytes =>
       let ops := ops_of fs in
